@@ -6,6 +6,7 @@ import (
 	"encoding/json"
 	"fmt"
 	"math/big"
+	"net/http/httptest"
 	"strings"
 	"testing"
 	"time"
@@ -27,7 +28,36 @@ import (
 )
 
 // exportLogs runs the real Export and returns the logs in the order written.
+// importsViaHTTP makes exportLogs / importLogs go through POST /v2/{ledger}/logs/export and /logs/import.
+var importsViaHTTP bool
+
+func (w *World) httpCall(method, path string, body []byte) *httptest.ResponseRecorder {
+	if w.router == nil {
+		w.router = w.Env.Router()
+	}
+	req := httptest.NewRequest(method, path, bytes.NewReader(body))
+	rec := httptest.NewRecorder()
+	w.router.ServeHTTP(rec, req)
+	return rec
+}
+
 func (w *World) exportLogs(l *LState) []ledger.Log {
+	if importsViaHTTP {
+		rec := w.httpCall("POST", "/v2/"+l.Name+"/logs/export", nil)
+		if rec.Code/100 != 2 {
+			w.V("C11", "POST /v2/%s/logs/export answered HTTP %d: %s", l.Name, rec.Code, truncate(rec.Body.String(), 300))
+		}
+		var out []ledger.Log
+		dec := json.NewDecoder(bytes.NewReader(rec.Body.Bytes()))
+		for dec.More() {
+			var lg ledger.Log
+			if err := dec.Decode(&lg); err != nil {
+				w.V("C11", "the export of %s cannot be decoded: %v", l.Name, err)
+			}
+			out = append(out, lg)
+		}
+		return out
+	}
 	var out []ledger.Log
 	err := l.C.Export(w.Ctx, ledgercontroller.ExportWriterFn(func(_ context.Context, lg ledger.Log) error {
 		out = append(out, lg)
@@ -42,6 +72,25 @@ func (w *World) exportLogs(l *LState) []ledger.Log {
 
 // importLogs feeds logs through the real Import of the ledger's full controller chain.
 func (w *World) importLogs(l *LState, logs []ledger.Log) error {
+	if importsViaHTTP {
+		var body bytes.Buffer
+		for _, lg := range logs {
+			b, err := json.Marshal(lg)
+			if err != nil {
+				w.harness("marshal log: %v", err)
+			}
+			body.Write(b)
+			body.WriteByte('\n')
+		}
+		rec := w.httpCall("POST", "/v2/"+l.Name+"/logs/import", body.Bytes())
+		if rec.Code/100 == 2 {
+			return nil
+		}
+		if rec.Code >= 500 {
+			w.V("C12|C11|C38", "POST /v2/%s/logs/import answered HTTP %d: %s", l.Name, rec.Code, truncate(rec.Body.String(), 300))
+		}
+		return fmt.Errorf("HTTP %d: %s", rec.Code, truncate(rec.Body.String(), 300))
+	}
 	ch := make(chan ledger.Log, len(logs))
 	for _, lg := range logs {
 		// what travels between two deployments is the JSON form
@@ -282,8 +331,19 @@ func TestC11(t *testing.T) {
 
 const ruleC12 = "imports attempted on ledgers with generated prior states — pristine, already written to (single request, non-atomic bulk, atomic bulk, a write preceded by a dry run on the same controller chain), only dry-run, already imported into — with log streams whose first id is below / equal to / above the existing last log id; an import must be accepted only on a ledger that is still initializing and whose logs all precede the imported ones, and a rejected import must leave every table unchanged; non-trivial = import attempted after a write through a bulk, or a second import; distinct = by prior state + stream"
 
-func TestC12(t *testing.T) {
-	st := stats.New("C12", "exploration", ruleC12, assumePgsim, "sequential part: the Import / write race is exercised by the scheduler-driven check when present")
+func TestC12(t *testing.T) { runC12(t, false) }
+
+// TestC12HTTP: the same prior states and streams, exported and imported through the routes of the API.
+func TestC12HTTP(t *testing.T) { runC12(t, true) }
+
+func runC12(t *testing.T, viaHTTP bool) {
+	rule := ruleC12
+	if viaHTTP {
+		rule = "export and import through POST /v2/{ledger}/logs/export and /logs/import: " + ruleC12
+		importsViaHTTP = true
+		defer func() { importsViaHTTP = false }()
+	}
+	st := stats.New("C12", "exploration", rule, assumePgsim, "sequential part: the Import / write race is exercised by TestC12Concurrent")
 	defer st.Write(t)
 	n := stats.N(200, 600)
 	st.Set("requested_checks", n)
